@@ -42,11 +42,14 @@ pub struct PipeCfg {
     /// does once the peer has reset it); the half is closed all the same
     #[serde(default)]
     pub shutdown_err: [bool; 2],
+    /// per-direction capacities (override `cap`): [A->B, B->A]
+    #[serde(default)]
+    pub caps: Option<[usize; 2]>,
 }
 
 impl Default for PipeCfg {
     fn default() -> Self {
-        PipeCfg { chunks: [vec![], vec![]], stalls: [vec![], vec![]], cap: 1 << 20, fault: None, shutdown_err: [false, false] }
+        PipeCfg { chunks: [vec![], vec![]], stalls: [vec![], vec![]], cap: 1 << 20, fault: None, shutdown_err: [false, false], caps: None }
     }
 }
 
@@ -358,7 +361,7 @@ impl AsyncWrite for Endpoint {
         if data.is_empty() {
             return Poll::Ready(Ok(0));
         }
-        let cap = s.cfg.cap.max(1);
+        let cap = s.cfg.caps.map(|c| c[wdir]).unwrap_or(s.cfg.cap).max(1);
         let chunks = s.cfg.chunks[wdir].clone();
         let fault = s.cfg.fault;
         let d = &mut s.dirs[wdir];
@@ -551,7 +554,7 @@ pub mod strat {
     }
     pub fn pipe_cfg() -> BoxedStrategy<PipeCfg> {
         (chunks(), chunks(), stalls(), stalls(), prop_oneof![Just(1usize << 20), Just(64usize), Just(97), Just(1), Just(4096)])
-            .prop_map(|(c0, c1, s0, s1, cap)| PipeCfg { chunks: [c0, c1], stalls: [s0, s1], cap, fault: None, shutdown_err: [false, false] })
+            .prop_map(|(c0, c1, s0, s1, cap)| PipeCfg { chunks: [c0, c1], stalls: [s0, s1], cap, fault: None, shutdown_err: [false, false], caps: None })
             .boxed()
     }
 }
